@@ -195,6 +195,7 @@ def build_ops(filter_names: list[str]) -> list[tuple[str, Optional[str]]]:
             # `lit contains T`: the missing value is only the needle of a membership test; whether a left operand
             # that is not a container "compares" anything is not specified -> clauses 1/2 only
             ops.append(("{% if " + lit + " " + op + " {T} %}T{% else %}F{% endif %}", "compare" if op != "contains" else None))
+    FILTER_SWEEP_FROM[0] = len(ops)
     for f in filter_names:
         kind = "default" if f == "default" else "filter"
         ops.append(("{{ {T} | %s }}" % f, kind))
@@ -209,6 +210,10 @@ def build_ops(filter_names: list[str]) -> list[tuple[str, Optional[str]]]:
 
 
 _OPS: Optional[list[tuple[str, Optional[str]]]] = None
+# ops from this index on are the per-filter sweep; the path shape is independent of the filter applied, so the
+# sweep uses one target per resolution mechanism (the other ops use every target)
+FILTER_SWEEP_FROM = [0]
+FILTER_SWEEP_TARGETS = {"x", "x.a.b", "x[0]", "x.a[0]", "x[-1]", "x[k]", "y[x.a]", "nosuch"}
 
 
 def all_ops() -> list[tuple[str, Optional[str]]]:
@@ -223,6 +228,15 @@ def quiet_render(tpl: Any, data: dict[str, Any]) -> U.Outcome:
     with warnings.catch_warnings():
         warnings.simplefilter("ignore")
         return U.render(tpl, data)
+
+
+def quiet_render_async(tpl: Any, data: dict[str, Any]) -> U.Outcome:
+    with warnings.catch_warnings():
+        warnings.simplefilter("ignore")
+        return U.render_async(tpl, data)
+
+
+APIS: list[tuple[str, Any]] = [("sync", quiet_render), ("async", quiet_render_async)]
 
 
 def parse4(src: str) -> Optional[dict[str, Any]]:
@@ -280,7 +294,7 @@ class C16(Check):
         "G: every program of the shared corpus x every DATA_SETS assignment x every valid subset of <=2 deleted "
         "keys/sub-paths (all dict keys at any depth, list suffixes) x {Undefined, StrictUndefined, FalsyStrictUndefined, "
         "StrictDefaultUndefined}; P: every (operation, target path) probe (output/iterate/equality/compare/truthiness/"
-        "every registered filter x 5 argument shapes/filter argument x 3 shapes/tag argument) x 14 probe data assignments (incl. arrays holding nil and false) x every "
+        "every registered filter x 5 argument shapes/filter argument x 3 shapes (8 of the targets)/tag argument) x 14 probe data assignments (incl. arrays holding nil and false) x every "
         "deletion subset of <=2 paths x the 4 types. Clauses: 1 (statement) a strict type that renders ok gives the default "
         "type's output; 2a (statement) the default type never raises UndefinedError; 2c (statement) when the full data renders ok "
         "the default type with deletions never lets a non-Liquid exception escape (no nil baseline); 2b (statement) when the full data "
@@ -292,11 +306,13 @@ class C16(Check):
         "FOUND: StrictUndefined raises UndefinedError for output/iterate/equality/compare/truthy/filter; "
         "FalsyStrictUndefined raises UndefinedError for output/iterate and does not raise for truthy/equality (filters, ordering/contains/case: unspecified, tallied); "
         "StrictDefaultUndefined raises UndefinedError for all but `default`, where it must not raise. "
+        "Every clause is applied to render() and to render_async() outcomes; 4 (C01/statement 'for every template and "
+        "data'): per undefined type the async outcome kind equals the sync one. "
         "A case is non-trivial when some strict type raised UndefinedError (an undefined object was created and used) "
         "or the deletion changed the default output."
     )
     assumptions = [
-        "tolerance mode STRICT only (errors are observable); sync render only",
+        "tolerance mode STRICT only (errors are observable); every cell is rendered with render() and render_async()",
         "DebugUndefined is not part of the statement and is not exercised",
         "list sub-path deletions are suffix deletions (a middle element cannot be removed without renumbering)",
         "`default` filter with StrictUndefined/FalsyStrictUndefined, ordering/contains/case comparisons with "
@@ -371,6 +387,8 @@ class C16(Check):
         for oi in range(i, len(ops), n):
             op, kind = ops[oi]
             for text, path, mentions in TARGETS:
+                if oi >= FILTER_SWEEP_FROM[0] and text not in FILTER_SWEEP_TARGETS:
+                    continue
                 src = op.replace("{T}", text)
                 tpls = parse4(src)
                 if tpls is None:
@@ -397,31 +415,49 @@ class C16(Check):
     # -------------------------------------------------------------------------------------
     def check_cell(self, res: Result, family: str, src: str, tpls: dict[str, Any], lab: str, full: dict[str, Any],
                    subset: tuple, data: dict[str, Any], probe: Optional[dict[str, Any]],
-                   full_cache: Optional[dict[str, U.Outcome]] = None) -> None:
-        o = {t: quiet_render(tpls[t], data) for t, _ in TYPES}
+                   full_cache: Optional[dict[Any, U.Outcome]] = None) -> None:
+        """One (program, data variant) cell: every clause on render() and on render_async(), then agreement."""
+        outs = {}
+        for api, rend in APIS:
+            outs[api] = self.judge(res, api, rend, family, src, tpls, lab, full, subset, data, probe, full_cache)
+        for t, name in TYPES:
+            a, b = outs["sync"][t], outs["async"][t]
+            if a.kind() != b.kind():
+                case = {"family": family, "source": src, "full": C02.encode_data(full), "full_label": lab,
+                        "subset": enc_paths(subset), "probe": probe}
+                res.violation({"family": family, "clause": "4-async-differs-from-sync", "utype": t,
+                               "sync": "ok" if a.ok else a.error_class, "async": "ok" if b.ok else b.error_class,
+                               "site": None if b.ok else site(b), "construct": probe["op"] if probe else src[:160]},
+                              f"{src!r} data={lab} minus {enc_paths(subset)}: {name} render() -> {short(a)} but "
+                              f"render_async() -> {short(b)}", case)
+
+    def judge(self, res: Result, api: str, rend: Any, family: str, src: str, tpls: dict[str, Any], lab: str,
+              full: dict[str, Any], subset: tuple, data: dict[str, Any], probe: Optional[dict[str, Any]],
+              full_cache: Optional[dict[Any, U.Outcome]] = None) -> dict[str, U.Outcome]:
+        o = {t: rend(tpls[t], data) for t, _ in TYPES}
         ou = o["U"]
         construct = probe["op"] if probe else src[:160]
 
         def viol(sig: dict[str, Any], what: str) -> None:
             case = {"family": family, "source": src, "full": C02.encode_data(full), "full_label": lab,
                     "subset": enc_paths(subset), "probe": probe}
-            base: dict[str, Any] = {"family": family}
+            base: dict[str, Any] = {"family": family, "api": api}
             if probe:
                 base["construct"] = construct
                 base["target_form"] = target_form(probe)
             elif "exc" not in sig:
                 base["construct"] = construct
-            res.violation({**base, **sig}, f"{src!r} data={lab} minus {enc_paths(subset)}: {what}", case)
+            res.violation({**base, **sig}, f"[{api}] {src!r} data={lab} minus {enc_paths(subset)}: {what}", case)
 
         # full-data baseline under the default type (the size-0 subset of this assignment)
         if not subset:
             ofull = ou
             if full_cache is not None:
-                full_cache[lab] = ou
-        elif full_cache is not None and lab in full_cache:
-            ofull = full_cache[lab]
+                full_cache[(lab, api)] = ou
+        elif full_cache is not None and (lab, api) in full_cache:
+            ofull = full_cache[(lab, api)]
         else:
-            ofull = quiet_render(tpls["U"], full)
+            ofull = rend(tpls["U"], full)
 
         # clause 1 -------------------------------------------------------------------------
         for t in STRICT:
@@ -453,7 +489,7 @@ class C16(Check):
                         res.count("unspecified_excluded")
                         res.count("clause2c_deletion_not_attributable")
                 else:
-                    onil = quiet_render(tpls["U"], M.apply(full, subset, "nil"))
+                    onil = rend(tpls["U"], M.apply(full, subset, "nil"))
                     if onil.error_class == ou.error_class:
                         res.count("clause2b_same_class_as_nil")
                     elif not onil.ok and not same_place(err_at(onil), err_at(ou)):
@@ -512,8 +548,12 @@ class C16(Check):
         if strict_undef or changed:
             nt = [family, src, lab, enc_paths(subset)]
         label = "|".join(f"{t}:{'ok' if o[t].ok else o[t].error_class}" for t, _ in TYPES)
-        res.case(nontrivial=nt, outcome=f"{family}:{label}{':c3' if c3 else ''}", n=len(TYPES),
-                 sample={"source": src, "data": lab, "minus": enc_paths(subset), "outcomes": label} if nt and c3 else None)
+        if nt is not None:
+            nt.append(api)
+        res.case(nontrivial=nt, outcome=f"{family}:{api}:{label}{':c3' if c3 else ''}", n=len(TYPES),
+                 sample={"source": src, "data": lab, "minus": enc_paths(subset), "api": api, "outcomes": label}
+                 if nt and c3 else None)
+        return o
 
     @staticmethod
     def nil_comparison_justified(subset: tuple, probe: Optional[dict[str, Any]]) -> bool:
